@@ -154,6 +154,16 @@ def run(tier, seed):
     common.import_sedpack()
     cs = cells(tier)
     st, per_cell, errors = par.run_cells(_cell, cs)
+    viols = collect(st, PROP, cs)
+    anchor = None
+    if tier == "thorough":
+        pr, err = iterscen.real_tf_anchor_subprocess()
+        anchor = dict(problems=pr[:3], error=err)
+        pr = [p for p in pr if "instead of exactly" in p]
+        if pr:
+            viols.append(Violation("C02:real-tf-anchor", "real TensorFlow run: " + pr[0], dict(real_tf=True)))
+        if err:
+            errors.append(err)
     return Result(
         property_id=PROP, engine="symx",
         explanation="Bounded symbolic execution with z3 of the real iteration code (shard-info recursion, shard selection, shard- and "
@@ -169,7 +179,7 @@ def run(tier, seed):
                      "ThreadPoolExecutor.map contract: results in submission order", "RustIter contract (C15)",
                      "decoders return the shard's examples (format fidelity is C01)"],
         outside=["tf.data runtime (as_tfdataset tfrec branch, tf shuffle/batch)", "real thread timing (covered by the contracts + C13/C15)"],
-        violations=collect(st, PROP, cs), inconclusive=st.inconclusive, harness_errors=errors,
+        violations=viols, inconclusive=st.inconclusive, harness_errors=errors, extra=dict(real_tf_anchor=anchor),
         twin=dict(obligations_reached=st.proves),
         rule="one evaluation = one explored path = one class of (random index sequence, shuffle, T, completion order)",
         evaluations=st.paths, distinct_nontrivial=st.paths - st.aborted,
@@ -179,6 +189,10 @@ def run(tier, seed):
 def replay(case):
     """Concrete replay: same scenario with the model's values (token decoders stay, randomness is fixed by the model);
     additionally the real decoders/threads are exercised on the same layout with the model's shuffle/T."""
+    if case.get("real_tf"):
+        pr, err = iterscen.real_tf_anchor_subprocess()
+        pr = [p for p in pr if "instead of exactly" in p]
+        return bool(pr), str(pr[:2] or err)
     common.import_sedpack()
     cfg = case["cfg"]
     try:
